@@ -1,0 +1,33 @@
+//! Verification hooks (only compiled with `--cfg metrics_verif`).
+//!
+//! A hook is installed per thread; `point()` is a no-op on threads without one.
+use std::cell::RefCell;
+
+/// A hook receives the site name and a few scalar arguments.
+pub type Hook = Box<dyn Fn(&'static str, &[i64])>;
+
+thread_local! {
+    static HOOK: RefCell<Option<Hook>> = RefCell::new(None);
+}
+
+/// Installs a hook for the current thread.
+pub fn install(hook: Hook) {
+    HOOK.with(|h| *h.borrow_mut() = Some(hook));
+}
+
+/// Removes the hook of the current thread.
+pub fn clear() {
+    let _ = HOOK.try_with(|h| *h.borrow_mut() = None);
+}
+
+/// A verification point: no-op unless the current thread installed a hook.
+#[inline]
+pub fn point(site: &'static str, args: &[i64]) {
+    let _ = HOOK.try_with(|h| {
+        if let Ok(h) = h.try_borrow() {
+            if let Some(f) = h.as_ref() {
+                f(site, args);
+            }
+        }
+    });
+}
